@@ -122,9 +122,19 @@ class Forced(Strategy):
 
     name = "forced"
 
-    def __init__(self, switches):
+    def __init__(self, switches, prefer=()):
         super().__init__(None)
         self.switches = dict(switches)
+        # once a forced switch has been taken: whom to run first when the running thread blocks
+        self.prefer = list(prefer)
+
+    def pick(self, sched, runnable):
+        if sched.forced_taken and self.prefer:
+            for tid in self.prefer:
+                for t in runnable:
+                    if t.tid == tid:
+                        return t
+        return runnable[0]
 
     def at_yield(self, sched, cur, others):
         tid = self.switches.get(sched.steps)
